@@ -164,6 +164,14 @@ func (c *corruptor) witness() {
 		other = multiVals
 	}
 	w("witness-of-other-validator-set", func(f *hdrFields) { f.Inv, f.Ver = other.sign(st.next, nil), other.script })
+	// class copy-differs (header): the offered copy differs from the validly signed header in exactly ONE witness
+	// field - when the header is already recorded (headers ahead) this is the copy the known-header path compares
+	w("copy:hdr-inv-truncated", func(f *hdrFields) { f.Inv = f.Inv[:len(f.Inv)-1] })
+	w("copy:hdr-inv-extended", func(f *hdrFields) { f.Inv = append(bytes.Clone(f.Inv), byte(opcode.PUSH2)) }) // (a NOP would still verify)
+	w("copy:hdr-inv-replaced", func(f *hdrFields) { f.Inv = other.sign(st.next, nil) })
+	w("copy:hdr-ver-truncated", func(f *hdrFields) { f.Ver = f.Ver[:len(f.Ver)-1] })
+	w("copy:hdr-ver-extended", func(f *hdrFields) { f.Ver = append(bytes.Clone(f.Ver), byte(opcode.NOP)) })
+	w("copy:hdr-ver-replaced", func(f *hdrFields) { f.Ver = other.script })
 	if v.m > 1 {
 		w("inv-swap-sigs", func(f *hdrFields) {
 			n := bytes.Clone(f.Inv)
@@ -307,6 +315,28 @@ func (c *corruptor) txlist() {
 	tl("prepend-expired", func(t []*transaction.Transaction) []*transaction.Transaction {
 		return append([]*transaction.Transaction{st.expired}, t...)
 	}, "resigned")
+	// class copy-differs (transaction): the block's copy of its FIRST transaction (pooled in the states with a
+	// mempool) differs from the valid one in exactly one witness field; the hash, and so the block hash, is the same
+	if n >= 1 {
+		cp := func(name string, m func(w *transaction.Witness)) {
+			tl("copy:tx-"+name, func(t []*transaction.Transaction) []*transaction.Transaction {
+				x := cloneTx(t[0])
+				m(&x.Scripts[0])
+				st.label(x, false, "copy-differs:"+name)
+				t[0] = x
+				return t
+			}, "plain")
+		}
+		otherTx := accX.acc
+		cp("inv-truncated", func(w *transaction.Witness) { w.InvocationScript = w.InvocationScript[:len(w.InvocationScript)-1] })
+		cp("inv-extended", func(w *transaction.Witness) { w.InvocationScript = append(w.InvocationScript, byte(opcode.PUSH2)) }) // (a NOP would still verify)
+		cp("inv-replaced", func(w *transaction.Witness) {
+			w.InvocationScript = append([]byte{byte(opcode.PUSHDATA1), 64}, otherTx.SignHashable(magic, st.next.Transactions[0])...)
+		})
+		cp("ver-truncated", func(w *transaction.Witness) { w.VerificationScript = w.VerificationScript[:len(w.VerificationScript)-1] })
+		cp("ver-extended", func(w *transaction.Witness) { w.VerificationScript = append(w.VerificationScript, byte(opcode.NOP)) })
+		cp("ver-replaced", func(w *transaction.Witness) { w.VerificationScript = otherTx.Contract.Script })
+	}
 	// transactions built to fail chosen conjuncts of the stand-alone verification, appended to the valid block
 	for i := range st.vars {
 		if v := &st.vars[i]; v.inBlock {
